@@ -82,11 +82,21 @@ def values(allow_none=True, long_ok=True):
     return st.one_of(*opts).map(msdgap.safe_text)
 
 
+AMBIG_KEYS = ["A", "A:B", "A:", "CREDIT", "TITLE", "A:B:C"]
+AMBIG_VALUES = [None, "None", "B:C", ":B:C", "C", "", "B", ":B"]
+
+
 @st.composite
 def pairs(draw, fmt, chart=False):
     k = draw(keys(fmt, chart=chart))
     v = draw(values())
-    sel = draw(st.integers(0, 19))
+    sel = draw(st.integers(0, 21))
+    if sel in (20, 21):
+        # pairs that coincide once key and value are glued together or printed (a colon moved between the end of the
+        # key and the start of the value, None against the text "None"): anything keyed on such a rendering mixes them up
+        k = draw(st.sampled_from(AMBIG_KEYS))
+        v = draw(st.sampled_from(AMBIG_VALUES))
+        return list(msdgap.safe_pair(k, v))
     if sel in (3, 4):
         # the same colon-containing string under several keys of one simfile / chart (multi-value and ordinary ones)
         v = draw(st.shared(st.sampled_from(["120:240", "a:b", "TIME=1.5:LEN=2:MODS=*2 x", "1:2:3", ":"]), key="shared-colon-value"))
@@ -255,6 +265,34 @@ def boundary_constructions(draw, fmt):
         ops.insert(0, ["set", "VERSION", "0.83"])
         ops.append(["chart_add", {"base": "empty", "del": [], "items": [["STEPSTYPE", "dance-single"], [nk, body if where == "notes" else "0000"]]}])
     return {"kind": "history", "fmt": fmt, "base": "empty", "ops": ops}
+
+
+def boundary_grid(fmt):
+    """complete grid of small boundary constructions: an escaped-on-save token `back` characters before a power-of-two
+    offset (256..8192), counted from the start of the value (note data or a property value) or from the start of the
+    serialized text (the value of the first property)"""
+    out = []
+    for size in (256, 512, 1024, 2048, 4096, 8192):
+        for back in (-1, 0, 1, 2, 3):
+            for tok in ("//", ":", ";", "\\"):
+                for where in ("notes", "value", "text"):
+                    key = "BGCHANGES"
+                    if where == "text":
+                        prefix = ("#VERSION:0.83;\n" if fmt == "ssc" else "") + "#" + key + ":"
+                        fill = size - back - len(prefix)
+                    else:
+                        fill = size - back
+                    body = msdgap.safe_text("0" * fill + tok + "0").strip()
+                    ops = []
+                    if where != "notes":
+                        ops.append(["set", key, body])
+                    if fmt == "sm":
+                        ops.append(["chart_add", {"fields": ["dance-single", "", "Hard", "9", "0,0", body if where == "notes" else "0000"], "extra": None, "via": "from_msd"}])
+                    else:
+                        ops.insert(0, ["set", "VERSION", "0.83"])
+                        ops.append(["chart_add", {"base": "empty", "del": [], "items": [["STEPSTYPE", "dance-single"], ["NOTES", body if where == "notes" else "0000"]]}])
+                    out.append({"kind": "history", "fmt": fmt, "base": "empty", "ops": ops})
+    return out
 
 
 def bases(fmt):
